@@ -214,3 +214,47 @@ ASSUMPTIONS = [
     "and emulated partial_fit, samples re-added are removed first; set_base_clf snapshots the result",
     "pairwise_kernels = uninterpreted symmetric positive function (rbf in the replay)",
 ]
+
+
+# ---------------------------------------------------------------- IndexClassifierWrapper around the real SklearnClassifier
+def sc_sklearn_inside(d, n, ignore_partial):
+    """the wrapped classifier is the real SklearnClassifier around a scikit-learn estimator that accumulates whatever it
+    is fitted on (warm_start-like) and has no partial_fit: after fit(idx0) and a second (partial_)fit the estimator that
+    answers predictions has been fitted exactly once, on exactly the samples the reference model implies"""
+    from skactiveml.classifier import SklearnClassifier
+    from skactiveml.pool.utils import IndexClassifierWrapper
+    from harness.C13 import _warm_classifier
+    xs = [d.fl(f"x{i}", lo=-2.0, hi=2.0) for i in range(n)]
+    X = d.arr([[x] for x in xs], shape=(n, 1))
+    lab = [d.choose(f"label{i}", [0, 1]) for i in range(n)]
+    y = d.arr([float(k) for k in lab])
+    second = d.choose("second_op", ["fit", "partial_fit"])
+    idx0, idx1 = [0], [1] if n == 2 else [1, 2]
+    w = IndexClassifierWrapper(SklearnClassifier(_warm_classifier(d.np), classes=[0.0, 1.0]), X, y,
+                               ignore_partial_fit=ignore_partial)
+    try:
+        w.fit(d.arr(idx0, dtype=int))
+        if second == "fit":
+            w.fit(d.arr(idx1, dtype=int))
+            expect = idx1
+        else:
+            w.partial_fit(d.arr(idx1, dtype=int))
+            expect = idx0 + idx1
+    except (core.Unencodable, core.PathAbort):
+        raise
+    except Exception as e:
+        d.prove(False, "operations_succeed", info=dict(error=repr(e)[:160]))
+        return
+    log = getattr(w.clf_.estimator_, "fit_log_", [])
+    d.prove(len(log) == 1, "inner_estimator_fitted_once_from_scratch", info=dict(fits_seen=len(log), second=second))
+    if len(log) >= 1:
+        Xr = log[-1][0]
+        d.prove(d.eq_arr(Xr, d.arr([[xs[i]] for i in expect], shape=(len(expect), 1))), "inner_estimator_sees_implied_samples",
+                info=dict(second=second, expected=expect))
+    d.witness(True, "ran")
+
+
+HARNESSES.append(dual_harness(
+    "sklearn_classifier_inside_wrapper", sc_sklearn_inside,
+    lambda tier: [dict(n=n, ignore_partial=ip) for n in ((2,) if tier == "quick" else (2, 3)) for ip in (True, False)],
+    UNITS[:3] + ["skactiveml.classifier._wrapper:SklearnClassifier._fit"], required_witnesses=("ran",)))
